@@ -550,6 +550,10 @@ public:
       crab::CrabStats::count("Fixpo.join_predecessors");
       crab::ScopedCrabStats __st__("Fixpo.join_predecessors");
       for (basic_block_label_t prev : prev_nodes) {
+        if (!m_iterator->m_wto.nesting(prev)) {
+          // prev is not in the wto: it is unreachable from the entry
+          continue;
+        }
         if (!(get_nesting(prev) > cycle_nesting)) {
           pre |= m_iterator->get_post(prev);
         }
